@@ -5,6 +5,30 @@ NOTES = "Contract-based deductive verification of the real code: see DESIGN.md. 
 _PENDING = "check not built yet in this round (contracts planned in DESIGN.md section 3); will move to checks when its obligations are discharged"
 
 CHECKS = {
+    "C01": {
+        "category": "proof",
+        "text": "The time loop of simulate() (both classes) is summarised exactly as the recurrence row[i+1] = body(row[i], i) by executing the body once at a symbolic step with the contracts of _build_matrix and _solve in place. Proved by induction over that recurrence, each step a quantifier-free SMT obligation at a Skolem arg-max/arg-min: level 0 within bounds, frac-face right-hand side uses the matrix's own coefficient, mesh numbers non-negative, upper/lower bound preserved, spatial monotonicity preserved under constant drawdown, the only self-reproducing level is the constant m_f (0 for the ideal reservoir); the callee contracts and FlowProperties.valid() are re-verified as dependency obligations. 20 obligations. Monotonicity in time beyond node 0 and convergence to the steady state have no inductive invariant: BOUNDED run-time clauses (known finding F3 lives there).",
+        "note": "Exact linear solve (C04), reals, interp1d/min/max models, arg-max existence and induction on the step index are trusted schemas; time grid non-decreasing and p_f <= p_i inside the table are preconditions.",
+        "technique": "VC generation from the AST with loop recurrence summarisation; induction with explicit instantiation, SMT (z3 NRA); bounded run-time contracts for time-monotonicity",
+    },
+    "C04": {
+        "category": "proof",
+        "text": "_build_matrix is proved against its contract (three diagonals of the right lengths, entries 1+2k / 1+k / -k[r+1] / -k[r], M-matrix corollaries), _solve against 'returns x with A x = b on every path', and the loop body of both simulate() methods against the step contract: stored row = _solve(_build_matrix(kt_h2), b) for every i, kt_h2 = (t[i+1]-t[i]) C(nx) alpha_s(previous level) with one positive mesh constant, interior and no-flow rows of the documented scheme. 10 obligations; residuals on real runs are a BOUNDED clause.",
+        "note": "spsolve idealised as exact; sparse.diags model; the clip min(pp, m_i) is the identity under C01's invariant (hypothesis).",
+        "technique": "modular VC generation from the AST (callee contracts + loop recurrence); SMT (z3); bounded run-time residual check",
+    },
+    "C10": {
+        "category": "proof",
+        "text": "simulate (both classes, with and without a schedule), recovery_factor and recovery_factor_interpolator are executed symbolically from every relevant pre-state (fresh / simulated / simulated with a cached recovery): frames from the log of attribute writes and array versions (only time, pseudopressure and the cache; constructor fields untouched; no write before a rejection; stored field never modified through a view), cache dropped by simulate, stored field a function of the arguments only, recovery == RF(current state) independent of the cache, interpolator over (time, cache or RF(current state)) with fill (0, last), RuntimeError before any simulate. 9 obligations. All call sequences up to length 4/5: BOUNDED clause.",
+        "note": "History equivalence is an induction over these method contracts (meta-argument); cumulative_trapezoid / interp1d models.",
+        "technique": "VC generation from the AST with heap frames (write log, array versions) over all pre-states; CAS for the recovery formulas; bounded call-sequence enumeration",
+    },
+    "C17": {
+        "category": "proof",
+        "text": "Times enter the time step and the flux quadrature only through differences (terms of the recurrence compared under t -> t+s by SMT); a constant schedule yields exactly the scalar setting's row 0 and step body; simulate returns iff len(schedule) == len(time) and raises ValueError before writing anything otherwise; RuntimeError before simulate; interpolator nodes/fill from the interp1d model. 6 obligations. Rounding-level agreement of shifted real runs: BOUNDED clause.",
+        "note": "Loop recurrence summarisation and library models as in C04/C10.",
+        "technique": "VC generation from the AST; relational SMT obligations on the extracted recurrence; bounded run-time contract for float rounding",
+    },
     "C11": {
         "category": "proof",
         "text": "Every array-capable correlation (oil FVF, solution GOR, Spivey compressibility, five water correlations, four Fluid methods) is executed symbolically on an array of symbolic length once per dtype (float64, float32, int64, int32, and with python-int temperature/API/GOR for integer arrays); element j is proved equal to the scalar call's own term by case split over the branch conditions, the measure-zero case p == p_b decided by SMT; result dtype floating, input shape, input not written; int32 overflow obligations under 0<=p<=30000. 45 obligations. Strided views, length 0/1 and float32 rounding: BOUNDED run-time contracts.",
